@@ -53,6 +53,14 @@ def spread_width(self, cycle):
     return rp.in_profile.width * rp.draught ** (-0.3)
 
 
+def spread_width_v(self, cycle):
+    """a spread model whose result depends on the rolling velocity of the pass (areas then depend on velocities)"""
+    if cycle:
+        return None
+    rp = self.roll_pass
+    return rp.in_profile.width * rp.draught ** (-0.4) * float(rp.velocity) ** (-0.15)
+
+
 def make_sequence(n):
     from pyroll.core import Roll, RollPass, Transport, RoundGroove, CircularOvalGroove, PassSequence
     specs = [('oval', dict(depth=8e-3, r1=6e-3, r2=40e-3)), ('round', dict(r1=1e-3, r2=12.5e-3, depth=11.5e-3)),
@@ -95,25 +103,32 @@ def check_flux(chk, seq, mode, speed, label):
 
 def real_runs(chk, rng):
     from pyroll.core import Profile, RollPass
-    cases = [(2, False), (3, False), (3, True)] + ([(4, True), (4, False), (2, True)] if chk.thorough else [])
+    cases = [(2, None), (3, None), (3, 'draught'), (3, 'velocity')] + ([(4, 'draught'), (4, None), (2, 'velocity'), (4, 'velocity')] if chk.thorough else [])
     for n, spread in cases:
         for mode in ('backward', 'forward'):
-            speed = rng.choice([1.0, 2.5, 7.25])
+            # histories: a fresh sequence; the same sequence solved again with another speed; the other direction afterwards
+            speeds = [rng.choice([1.0, 2.5]), rng.choice([1.5, 2.0])]
             seq = make_sequence(n)
             ip = Profile.round(diameter=30e-3, temperature=1473.15, material=["C45", "steel"], length=1)
             ctx = [RollPass.Profile.flow_stress(flow_stress)]
             if spread:
-                ctx.append(RollPass.OutProfile.width(spread_width))
+                ctx.append(RollPass.OutProfile.width(spread_width if spread == 'draught' else spread_width_v))
+            label = f"{n} passes{' with ' + spread + '-dependent spread model' if spread else ''}"
             try:
-                if mode == 'backward':
-                    seq.solve_velocities_backward(ip, final_speed=speed, final_cross_section_area=seq.roll_passes[-1].usable_cross_section.area)
-                else:
-                    seq.solve_velocities_forward(ip, initial_speed=speed)
-                check_flux(chk, seq, mode, speed, f"{n} passes{' with spread model' if spread else ''}")
+                for step, (m, speed) in enumerate([(mode, speeds[0]), (mode, speeds[1]), ('forward' if mode == 'backward' else 'backward', speeds[0])]):
+                    try:
+                        if m == 'backward':
+                            seq.solve_velocities_backward(ip, final_speed=speed, final_cross_section_area=seq.roll_passes[-1].usable_cross_section.area)
+                        else:
+                            seq.solve_velocities_forward(ip, initial_speed=speed)
+                    except Exception as e:      # the physical models did not solve: nothing to say about fluxes
+                        chk.notes.append(f"{label} {m} call {step + 1}: solve failed ({type(e).__name__})")
+                        break
+                    check_flux(chk, seq, m, speed, label + f" (call {step + 1} on the same sequence)")
+                    chk.cov['evaluations'] += 1
             finally:
                 for hf in ctx:
                     hf.hook.remove_function(hf)
-            chk.cov['evaluations'] += 1
 
 
 def run(chk):
